@@ -39,11 +39,11 @@ type Value struct {
 	Origin string
 }
 
-func Str(s string) *Value  { return &Value{K: KString, S: s} }
-func Bool(b bool) *Value   { return &Value{K: KBool, B: b} }
-func Int(i int64) *Value   { return &Value{K: KInt, I: i} }
-func Any(a any) *Value     { return &Value{K: KAny, A: a} }
-func Nil() *Value          { return &Value{K: KNil} }
+func Str(s string) *Value     { return &Value{K: KString, S: s} }
+func Bool(b bool) *Value      { return &Value{K: KBool, B: b} }
+func Int(i int64) *Value      { return &Value{K: KInt, I: i} }
+func Any(a any) *Value        { return &Value{K: KAny, A: a} }
+func Nil() *Value             { return &Value{K: KNil} }
 func List(e ...*Value) *Value { return &Value{K: KSlice, Elems: e} }
 
 func (v *Value) Truth() bool {
